@@ -1,7 +1,7 @@
 (* C03 — No accepted attribute change is lost (write-through completeness of every property setter).
    Only statements, each closed by [exact]/short glue and followed by Print Assumptions.
    The tables (T_funcs, T_classes, T_pairs) are regenerated from the geoh5py source on every run. *)
-From GV Require Import Prelude.Base Model.Setters Model.SettersListed Proofs.SettersProofs.
+From GV Require Import Prelude.Base Model.Setters Model.SettersListed Model.SettersWriter Proofs.SettersProofs Proofs.SettersWriterProofs.
 From GVgen Require Import Tables_C03.
 From Coq Require Import String.
 
@@ -118,6 +118,37 @@ Proof.
   specialize (S NAME (or_introl eq_refl)). vm_compute in S. discriminate.
 Qed.
 Print Assumptions C03_project_name_refuted.
+
+(* ------------------------------------------------------------------ the writer side (Model/SettersWriter.v) *)
+(* H5Writer.write_attributes, one key: for every well-formed non-None value of every Python/numpy scalar type (bool,
+   np.bool_, np.int8, wider numpy integers, int, float, np.floating, str - unbounded in magnitude), whatever the
+   attribute held before, the branch chain extracted from the source stores a value that reads back equal. *)
+Theorem C03_scalar_write_faithful : forall old v, wf v ->
+  exists st, write_scalar T_scalar_chain old v = Some st /\ faithful st v.
+Proof. intros old v. apply scalar_write_faithful. vm_compute. reflexivity. Qed.
+Print Assumptions C03_scalar_write_faithful.
+
+(* The dataset writers (value map, colour map, array attributes, data values / metadata / options): after the routine
+   ran with value v (None included) the file holds exactly v, whatever it held before. *)
+Theorem C03_dataset_writers_exact : forall name steps, In (name, steps) T_writers ->
+  forall (A : Type) (old v : option A), wfinal steps old v = Some v.
+Proof.
+  assert (H : forallb (fun p => writer_ok (snd p)) T_writers = true) by (vm_compute; reflexivity).
+  rewrite forallb_forall in H. intros name steps Hin A old v. apply dataset_write_exact. exact (H _ Hin).
+Qed.
+Print Assumptions C03_dataset_writers_exact.
+
+(* REFUTED for None: write_attributes skips a None value (`or value is None: continue`), so clearing an attribute that
+   holds something leaves the old value on file.  Witness: end_of_hole = 100 stored, then None assigned. *)
+Definition C03_scalar_none_clears : Prop :=
+  forall old, write_attr T_scalar_chain T_skip_none old None = Some None.
+
+Theorem C03_scalar_none_refuted : T_skip_none = true -> ~ C03_scalar_none_clears.
+Proof.
+  intros Hs H. unfold C03_scalar_none_clears in H. rewrite Hs in H. specialize (H (Some {| h_type := HInt64; h_int := 100%Z; h_frac := false; h_txt := 0%N |})).
+  vm_compute in H. discriminate.
+Qed.
+Print Assumptions C03_scalar_none_refuted.
 
 (* non-vacuity: the hypotheses of the soundness theorem are met by a non-trivial path (a loop whose body stores and
    relies on the persistence call after the loop), and the on-file hypothesis is needed. *)
